@@ -672,8 +672,15 @@ theorem map_eq_self {α : Type} (f : α → α) (l : List α) (h : ∀ a ∈ l, 
     simp only [List.map_cons]
     rw [h a (List.mem_cons_self ..), ih (fun b hb => h b (List.mem_cons_of_mem _ hb))]
 
-/-- on a state that satisfies `Inv`, a save / restore round trip changes nothing. -/
-theorem restore_eq (st : State) (h : Inv st) : restore st = st := by
+/-- `Inv` does not look at the command stack. -/
+theorem inv_stack (st : State) (h : Inv st) (a b : List (Bool × Nat)) :
+    Inv { st with done := a, undone := b } :=
+  ⟨h.nodupD, h.nodupG, h.subsEq, h.dBound, h.gBound, h.dataGroups, h.subData, h.removedEmpty,
+    h.groupDatas, h.subGroup, h.groupAttached, h.attachedListed⟩
+
+/-- on a state that satisfies `Inv`, a save / restore round trip changes nothing but the command
+stack (the restored session starts with an empty one). -/
+theorem restore_eq (st : State) (h : Inv st) : restore st = { st with done := [], undone := [] } := by
   unfold restore
   apply State.ext <;> try rfl
   · exact h.subsEq.symm
@@ -706,7 +713,7 @@ theorem restore_eq (st : State) (h : Inv st) : restore st = st := by
     · simp only [hg, if_false]
 
 theorem inv_restore (st : State) (h : Inv st) : Inv (restore st) := by
-  rw [restore_eq st h]; exact h
+  rw [restore_eq st h]; exact inv_stack st h [] []
 
 theorem inv_setVal (g : Nat) (f : GVals → GVals) (st : State) (h : Inv st) : Inv (setVal g f st) := by
   unfold setVal
@@ -767,6 +774,34 @@ theorem inv_setItem (key d : Nat) (st : State) (h : Inv st) : Inv (setItem true 
     exact ⟨h.nodupD, h.nodupG, h.subsEq, h.dBound, h.gBound, h.dataGroups, h.subData, h.removedEmpty,
       h.groupDatas, h.subGroup, h.groupAttached, h.attachedListed⟩
 
+theorem inv_cmdDo (c : Bool × Nat) (st : State) (h : Inv st) : Inv (cmdDo true c st) := by
+  unfold cmdDo
+  split
+  · exact inv_appendOne _ st h
+  · exact inv_removeOne _ st h
+
+theorem inv_cmdUndo (c : Bool × Nat) (st : State) (h : Inv st) : Inv (cmdUndo true c st) := by
+  unfold cmdUndo
+  split
+  · exact inv_removeOne _ st h
+  · exact inv_appendOne _ st h
+
+theorem inv_doCmd (c : Bool × Nat) (st : State) (h : Inv st) : Inv (doCmd true c st) := by
+  unfold doCmd
+  exact inv_stack _ (inv_cmdDo c _ (inv_stack st h _ _)) _ _
+
+theorem inv_undoCmd (st : State) (h : Inv st) : Inv (undoCmd true st) := by
+  unfold undoCmd
+  split
+  · exact h
+  · exact inv_cmdUndo _ _ (inv_stack st h _ _)
+
+theorem inv_redoCmd (st : State) (h : Inv st) : Inv (redoCmd true st) := by
+  unfold redoCmd
+  split
+  · exact h
+  · exact inv_stack _ (inv_cmdDo _ _ (inv_stack st h _ _)) _ _
+
 theorem inv_init (n colors : Nat) : Inv (init n colors) := by
   refine ⟨List.nodup_nil, List.nodup_nil, rfl, ?_, ?_, ?_, ?_, ?_, ?_, ?_, ?_, ?_⟩ <;>
     intros <;> first | rfl | (rename_i h; cases h) | skip
@@ -786,6 +821,9 @@ theorem inv_step (st : State) (op : Op) (h : Inv st) : Inv (step true st op) := 
   | merge ds => exact inv_merge ds st h
   | setItem key d => exact inv_setItem key d st h
   | restore => exact inv_restore st h
+  | doCmd add d => exact inv_doCmd (add, d) st h
+  | undo => exact inv_undoCmd st h
+  | redo => exact inv_redoCmd st h
 
 theorem inv_run (ops : List Op) : ∀ st : State, Inv st → Inv (run true st ops) := by
   unfold run
